@@ -56,56 +56,77 @@ def build_shadow(log=None):
     fcntl.flock(lock, fcntl.LOCK_EX)
     try:
         t0 = time.time()
-        os.makedirs(SHADOW, exist_ok=True)
-        subprocess.run(['rsync', '-a', '--delete', '--exclude', 'target', '--exclude', '.git', harness.REPO + '/', SHADOW + '/'], check=True)
-        for name, rel in discover_drivers().items():
-            if not rel:
-                continue
-            p = os.path.join(SHADOW, rel)
-            if not os.path.exists(p):
-                continue
-            with open(p, 'a') as f:
-                f.write('\n#[cfg(test)]\n#[path = "%s"]\nmod verif_replay_%s;\n' % (os.path.join(harness.VERIF, 'replay', 'drivers', name + '.rs'), name))
-        # the milu driver needs serde_json (already in Cargo.lock through the bin crate): dev-dependency in the SHADOW copy only
-        mt = os.path.join(SHADOW, 'milu', 'Cargo.toml')
-        if os.path.exists(mt):
-            txt = open(mt).read()
-            if 'serde_json' not in txt:
-                if '[dev-dependencies]' in txt:
-                    txt = txt.replace('[dev-dependencies]', '[dev-dependencies]\nserde_json = "1.0"', 1)
-                else:
-                    txt += '\n[dev-dependencies]\nserde_json = "1.0"\n'
-                open(mt, 'w').write(txt)
-        r = subprocess.run(['cargo', 'test', '--offline', '--no-run', '--workspace', '--message-format=json'],
-                           cwd=SHADOW, env=_env(), stdout=subprocess.PIPE, stderr=subprocess.PIPE)
-        exe = None
-        exes = {}
-        errs = []
-        for ln in r.stdout.decode('utf-8', 'replace').splitlines():
-            try:
-                j = json.loads(ln)
-            except Exception:
-                continue
-            if j.get('reason') == 'compiler-message' and (j.get('message') or {}).get('level') == 'error':
-                errs.append((j['message'].get('rendered') or '')[:2000])
-            if j.get('reason') == 'compiler-artifact' and j.get('executable') and j.get('profile', {}).get('test'):
-                nm = j.get('target', {}).get('name', '')
-                exes[nm] = j['executable']
-                if nm == 'redproxy-rs':
-                    exe = j['executable']
-        global _EXES
+        disabled = []
+        ok, exe, exes = False, None, {}
+        for attempt in range(4):
+            ok, exe, exes, errs, stderr = _build_once(disabled)
+            if ok:
+                break
+            # a driver that does not compile against THIS tree (a struct it builds by hand changed, a private item moved ...)
+            # must not take the other drivers down with it: leave it out and build again
+            broken = sorted(set(re.findall(r'replay/drivers/([A-Za-z0-9_]+)\.rs', '\n'.join(errs))) - set(disabled))
+            with open(os.path.join(harness.WORK, 'shadow-build.err'), 'ab' if attempt else 'wb') as f:
+                f.write(('--- build attempt %d (drivers left out so far: %s) ---\n' % (attempt, disabled)).encode())
+                f.write(stderr)
+                f.write(('\n'.join(errs) + '\n').encode())
+            if not broken:
+                break
+            disabled += broken
+        global _EXES, DISABLED_DRIVERS
         _EXES = exes
-        ok = r.returncode == 0 and exe is not None
-        if not ok:
-            with open(os.path.join(harness.WORK, 'shadow-build.err'), 'wb') as f:
-                f.write(r.stderr)
-                f.write(('\n'.join(errs)).encode())
+        DISABLED_DRIVERS = list(disabled)
+        if disabled:
+            print('REPLAY-DRIVERS-LEFT-OUT: %s do not compile against this tree (see shadow-build.err); findings they would confirm are decided by the solver-only rule' % ', '.join(disabled), flush=True)
         res = (ok, round(time.time() - t0, 1), exe)
         _built[key] = res
         return res
     finally:
         fcntl.flock(lock, fcntl.LOCK_UN)
         lock.close()
+
+
+DISABLED_DRIVERS = []
+
+
+def _build_once(disabled):
+    os.makedirs(SHADOW, exist_ok=True)
+    subprocess.run(['rsync', '-a', '--delete', '--exclude', 'target', '--exclude', '.git', harness.REPO + '/', SHADOW + '/'], check=True)
+    for name, rel in discover_drivers().items():
+        if not rel or name in disabled:
+            continue
+        p = os.path.join(SHADOW, rel)
+        if not os.path.exists(p):
+            continue
+        with open(p, 'a') as f:
+            f.write('\n#[cfg(test)]\n#[path = "%s"]\nmod verif_replay_%s;\n' % (os.path.join(harness.VERIF, 'replay', 'drivers', name + '.rs'), name))
+    # the milu driver needs serde_json (already in Cargo.lock through the bin crate): dev-dependency in the SHADOW copy only
+    mt = os.path.join(SHADOW, 'milu', 'Cargo.toml')
+    if os.path.exists(mt):
+        txt = open(mt).read()
+        if 'serde_json' not in txt:
+            if '[dev-dependencies]' in txt:
+                txt = txt.replace('[dev-dependencies]', '[dev-dependencies]\nserde_json = "1.0"', 1)
+            else:
+                txt += '\n[dev-dependencies]\nserde_json = "1.0"\n'
+            open(mt, 'w').write(txt)
+    r = subprocess.run(['cargo', 'test', '--offline', '--no-run', '--workspace', '--message-format=json'],
+                       cwd=SHADOW, env=_env(), stdout=subprocess.PIPE, stderr=subprocess.PIPE)
+    exe = None
+    exes = {}
+    errs = []
+    for ln in r.stdout.decode('utf-8', 'replace').splitlines():
+        try:
+            j = json.loads(ln)
+        except Exception:
+            continue
+        if j.get('reason') == 'compiler-message' and (j.get('message') or {}).get('level') == 'error':
+            errs.append((j['message'].get('rendered') or '')[:2000])
+        if j.get('reason') == 'compiler-artifact' and j.get('executable') and j.get('profile', {}).get('test'):
+            nm = j.get('target', {}).get('name', '')
+            exes[nm] = j['executable']
+            if nm == 'redproxy-rs':
+                exe = j['executable']
+    return (r.returncode == 0 and exe is not None), exe, exes, errs, r.stderr
 
 
 def run_case(driver, case, timeout=30):
@@ -152,6 +173,12 @@ def replayer(ck, ob):
            'inputs': ob.finding.inputs if ob.finding else None}
     plan = ck.replay_plan(ob) if hasattr(ck, 'replay_plan') else None
     verdict = 'solver-only'
+    if plan is not None:
+        built, _secs, _exe = build_shadow()
+        if not built or plan[0] in DISABLED_DRIVERS:
+            # no usable native driver for this tree: the finding is decided like one that never had a driver
+            rec['note'] = 'native driver %r unavailable for this tree (%s)' % (plan[0], 'replay build failed' if not built else 'it does not compile against it')
+            plan = None
     if plan is not None:
         driver, case, confirm = plan
         cases = case if isinstance(case, list) else [case]
